@@ -90,6 +90,7 @@ func (s *scRebal) Configure(w *World) {
 	if s.prop == "C12r" {
 		// finite mode across a rebalance: the session opened by the rebalance runs to its end seqnos
 		c.DcpMode = "finite"
+		c.W.LateEnd = 1
 		c.W.Publish, c.W.Emit = 8, 6
 		c.W.ExtWrite = 1
 		c.ConsumerMode = "immediate"
